@@ -147,6 +147,36 @@ def _parse(s):
     return out
 
 
+def _order_canon(call, name, buf):
+    """kernels built on std::sort (unstable): the model is the stable sort, the compiled result may order equal keys
+    differently. Both results are compared "up to the order realised": each position is replaced by the key it
+    selects. (That the compiled result is a permutation is checked separately by kernels_gen.check_property.)"""
+    k = call.spec.kernel.name
+    v = call.vals
+    try:
+        if k == 'awkward_argsort' and name == 'toptr' and not v['stable']:
+            off, src, out = v['offsets'], v['fromptr'], list(buf)
+            for a, b in zip(off, off[1:]):
+                for i in range(a, b):
+                    out[i] = ('key', src[a + out[i]])
+            return out
+        if k == 'awkward_ListOffsetArray_local_preparenext_64' and name == 'tocarry':
+            src = v['fromindex']
+            return [('key', src[i]) for i in buf]
+        if k == 'awkward_ListOffsetArray_argsort_strings' and name == 'tocarry' and not v['is_stable']:
+            par, out = v['fromparents'], list(buf)
+            first = 0
+            for i in range(len(out)):
+                if i and par[i] != par[i - 1]:
+                    first = i
+                j = out[i] + (first if v['is_local'] else 0)
+                out[i] = ('key', tuple(v['stringdata'][v['stringstarts'][j]:v['stringstops'][j]]))
+            return out
+    except (IndexError, TypeError):
+        pass
+    return buf
+
+
 def compare_model(call, rc, rs, mout):
     """-> (agree | abstain | diff | bad, detail)"""
     if mout is None:
@@ -167,6 +197,8 @@ def compare_model(call, rc, rs, mout):
         return 'bad', 'model returned %d buffers, kernel has %d' % (len(outs), len(names))
     for a, mo in zip(names, outs):
         co = rc['out'][a.name]
+        if a.depth == 1:
+            co, mo = _order_canon(call, a.name, co), _order_canon(call, a.name, mo)
         rows_c = co if a.depth == 2 else [co]
         rows_m = mo if a.depth == 2 else [mo]
         if len(rows_c) != len(rows_m):
